@@ -73,16 +73,16 @@ CHECKS = {
    text="Exploration over contents (result shorter/longer/equal/empty) x modes x path forms x configurations, plus failing files (unreadable as user nobody, undecodable, missing).",
    note="Trusted: the stdin->stdout path of the binary as reference, as the property defines it."),
  "C17": dict(
-   technique="runtime monitoring of the real binary: byte-level oracle BOM + encode(F(decode(bytes))) with the library call as F and an independent codec, x 25 encodings x BOM kinds x file/stdin; malformed inputs must be rejected untouched; valgrind memcheck on the release binary over the same workload in the thorough tier",
+   technique="runtime monitoring of the real binary: byte-level oracle BOM + encode(F(decode(bytes))) with the library call as F and an independent codec, x 25 encodings x BOM kinds x file/stdin x {original text, the formatted result fed back}; malformed inputs must be rejected untouched; valgrind memcheck on the release binary over the same workload in the thorough tier",
    text="Exploration.",
    note="Trusted: encoding_rs as codec for legacy encodings; Rust std for UTF-8/UTF-16."),
  "C18": dict(
-   technique="runtime monitoring of the real binary: batch vs one-at-a-time byte comparison under varied thread counts with hook-injected per-file delays; schedule trace hook (thread, order, reused buffer capacity) measures distinct schedules and buffer-reuse events; TSan build in the thorough tier",
+   technique="runtime monitoring of the real binary: batch vs one-at-a-time byte comparison under varied thread counts with hook-injected per-file delays (files mode; in one batch of three also stdout mode, whose output must be exactly the members' own sections, each contiguous); schedule trace hook (thread, order, reused buffer capacity) measures distinct schedules and buffer-reuse events; TSan build in the thorough tier",
    text="Exploration (schedule sampling with perturbation, not enumeration).",
    note="Trusted: the single-file run of the same binary as reference."),
  "C19": dict(
    technique="runtime monitoring of the real binary from nested working directories: a 20-line reference resolver predicts the effective configuration; metamorphic oracle 'however specified => same bytes'; rejection checks on exit status and untouched files (unknown keys, ill-typed values, TOML syntax errors, non-UTF-8 files, discovered or named); valgrind memcheck on the release binary in the thorough tier",
-   text="Exploration over depths 0-6, several pasfmt.toml, --config-file, -C splits, invalid settings.",
+   text="Exploration over depths 0-6 (one case in eight: 10-48 levels with files only near the top), several pasfmt.toml, --config-file, -C splits, invalid settings.",
    note="Trusted: the reference resolver written from the property text."),
 }
 
